@@ -50,7 +50,9 @@ func (loader *CompilerLoader) LoadAll(readers []io.Reader) (compiler.Passes, err
 }
 
 func (loader *CompilerLoader) Load(reader io.Reader) (compiler.Passes, error) {
-	compilerConfig := &Compiler{}
+	// decoding into a value (not a pointer to a pointer): a `null` document
+	// would otherwise leave a nil configuration behind
+	compilerConfig := Compiler{}
 
 	decoder := yaml.NewDecoder(reader)
 	decoder.KnownFields(true)
